@@ -108,9 +108,10 @@ def _copy_post(C, args, kwargs, out):
     same(bits(r), bits(self), 'content', g)
     for it in g.items:
         yield it
-    if any(k.name == 'BitArray' for k in self.cls.mro):
+    if any(k.name in ('BitArray', 'ConstBitStream') for k in self.cls.mro):
+        # a mutable bitstring, or one carrying a position: the copy is a new object (reading from the copy must not move the original)
         yield ('fresh-object', r is not self)
-    if '_pos' in r.attrs and r is not self:
+    if '_pos' in r.attrs:
         yield ('pos', sym.eq(r.attrs['_pos'], 0))
 
 
@@ -128,15 +129,9 @@ for _m in ('copy', '__copy__', '_copy', '_getbits'):
         if _m in ('_copy', '_getbits') and _cn != 'Bits':
             continue
         states = SELF_STATES if _cn == 'Bits' and _m in ('_copy', '_getbits') else [s for s in SELF_STATES if s[0] == _cn]
-        if (_cn, _m) in (('BitStream', 'copy'),):
-            continue      # inherits BitArray.copy
-        if (_cn, _m) == ('ConstBitStream', 'copy'):
-            continue      # inherits Bits.copy
-        if (_cn, _m) == ('BitArray', 'copy'):
-            states = MUT_STATES
-        if (_cn, _m) == ('Bits', 'copy'):
-            states = [s for s in SELF_STATES if s[0] in ('Bits', 'ConstBitStream')]
-        contract(q, shapes=_self_shapes(states=states), props={'C04'}, kind='public', relational=True,
+        # the method is resolved through the class's MRO at check time, so each class is checked against whatever it
+        # defines or inherits on the current tree
+        contract(q, shapes=_self_shapes(states=states), props={'C04', 'C06'} if 'Stream' in _cn else {'C04'}, kind='public', relational=True,
                  note=f"{_m}(): equal content, same class; a new object for mutable classes; no store shared with a mutable object")(_copy_post)
 
 
